@@ -2,12 +2,24 @@ import MxModel.Proofs.ExecSound
 import MxModel.Proofs.ExecFrame
 import MxModel.Proofs.ExecKeep
 import MxModel.Props.C01
+import MxModel.Proofs.ExecCertExamples
 /-!
 # C05 – a failed evaluation leaves a consistent, retryable state
 
 Failure points are every `Prog.raise` of every formula behaviour, `None` returned where it is
 not allowed (`_store_value`), and the depth limit (`CallStack.append`); all theorems are for
 every environment, every element, every reachable state.
+
+Three groups of statements about "the state stays correct":
+* `_partial` (hypothesis `LimitNotCaughtInThisCall`, see C01): any formula behaviour, including
+  handlers that catch anything; the evaluation at hand does not hit the depth limit.  Nothing is
+  assumed about EARLIER evaluations (the limit flag is a ghost, `C01.limit_flag_is_ghost`).
+* `_deep_propagates` (hypothesis `DeepPropagatesEnv`: handlers let `DeepReferenceError` through) and
+  `_nocatch` (hypothesis `NoCatchEnv`: no handler returns a value, the regime of C02): EVERY failure
+  kind, the depth limit included, hit anywhere – no hypothesis about the limit at all.  An uncaught
+  depth error rolls the whole chain back like any other failure.
+* what is left out is exactly the known finding C01-caught-deep: a formula that catches the depth
+  error stores a value that depends on the limit (`C01.full_statement_fails`).
 -/
 namespace MxModel.C05
 open MxModel.Exec
@@ -15,8 +27,8 @@ open MxModel.Exec
 variable (env : Env) (inp : Node → Option Val)
 
 /-- **No formula is left marked as executing**: after any top-level call – returned or
-failed at any depth with any kind of error – the call stack, the index stack, the
-reference stack and the roll-back list are empty again. -/
+failed at any depth with any kind of error, the depth limit included – the call stack, the index
+stack, the reference stack and the roll-back list are empty again. -/
 theorem failure_quiescent (n : Node) (s : St) (hq : Quiescent s) :
     Quiescent (evalTop env n s).2 :=
   evalTop_quiescent env n s hq
@@ -24,25 +36,76 @@ theorem failure_quiescent (n : Node) (s : St) (hq : Quiescent s) :
 /-- **The top-level call raises an error carrying the original exception, and the state
 stays correct**: the `FormulaError` carries exactly the error that pure evaluation of the
 element ends in, and afterwards every held value is still the spec's
-(partial: `LimitNeverCaught`, see C01). -/
+(partial: `LimitNotCaughtInThisCall`, see C01 – about THIS call only). -/
 theorem failure_consistent_partial (n : Node) (s : St) (e : Err) (tb : List Node)
-    (hg : Good env inp s) (h0 : s.hit = false) (hend : (evalTop env n s).2.hit = false)
+    (hg : Good env inp s) (hlim : LimitNotCaughtInThisCall env n s)
     (hfail : (evalTop env n s).1 = .formulaError e tb) :
     Den env inp n (.err e) ∧ Good env inp (evalTop env n s).2 :=
-  ⟨(C01.eval_value_is_denotation_partial env inp n s hg h0 hend).2.1 e tb hfail,
-   (C01.eval_value_is_denotation_partial env inp n s hg h0 hend).2.2⟩
+  ⟨(C01.eval_value_is_denotation_partial env inp n s hg hlim).2.1 e tb hfail,
+   (C01.eval_value_is_denotation_partial env inp n s hg hlim).2.2⟩
 
 /-- **Every later evaluation returns the same values as if the failure had not happened**:
 the state after the failed call `m` answers any query `n` with the spec's value – which
 does not mention the failure or the order of earlier calls. -/
 theorem retry_unaffected_partial (m n : Node) (s : St) (v : Val)
-    (hg : Good env inp s) (h0 : s.hit = false)
-    (h1 : (evalTop env m s).2.hit = false)
-    (h2 : (evalTop env n (evalTop env m s).2).2.hit = false)
+    (hg : Good env inp s)
+    (h1 : LimitNotCaughtInThisCall env m s)
+    (h2 : LimitNotCaughtInThisCall env n (evalTop env m s).2)
     (hv : (evalTop env n (evalTop env m s).2).1 = .ok v) :
     Den env inp n (.ok v) :=
   (C01.eval_value_is_denotation_partial env inp n _
-    (C01.eval_value_is_denotation_partial env inp m s hg h0 h1).2.2 h1 h2).1 v hv
+    (C01.eval_value_is_denotation_partial env inp m s hg h1).2.2 h2).1 v hv
+
+/-- **ANY failure – the depth limit included – leaves a correct state, for formulas that handle no
+failure** (`NoCatchEnv`; no hypothesis about the limit, in this call or before): whether the call
+returned, failed with any error at any depth, or was stopped by the limit anywhere in the chain,
+every value held afterwards is the spec's, a returned value is the spec's, and the user's inputs
+are untouched. -/
+theorem failure_consistent_nocatch (hnc : NoCatchEnv env) (n : Node) (s : St) (hg : Good env inp s) :
+    Good env inp (evalTop env n s).2 ∧ (evalTop env n s).2.inputs = s.inputs ∧
+    (∀ v, (evalTop env n s).1 = .ok v → Den env inp n (.ok v)) :=
+  ⟨(C01.eval_value_is_denotation_nocatch_partial env inp hnc n s hg).2, (evalTop_keeps env n s).2,
+   (C01.eval_value_is_denotation_nocatch_partial env inp hnc n s hg).1⟩
+
+/-- …**and for formulas whose handlers let `DeepReferenceError` through** (`DeepPropagatesEnv`):
+additionally the error carried is the depth error or the spec's. -/
+theorem failure_consistent_deep_propagates (hdp : DeepPropagatesEnv env) (n : Node) (s : St)
+    (hg : Good env inp s) :
+    Good env inp (evalTop env n s).2 ∧ (evalTop env n s).2.inputs = s.inputs ∧
+    (∀ v, (evalTop env n s).1 = .ok v → Den env inp n (.ok v)) ∧
+    (∀ e tb, (evalTop env n s).1 = .formulaError e tb → e = .deep ∨ Den env inp n (.err e)) :=
+  have h := C01.eval_value_is_denotation_deep_propagates_partial env inp hdp n s hg
+  ⟨h.2.2, (evalTop_keeps env n s).2, h.1, h.2.1⟩
+
+/-- **Retry after ANY failure** (`NoCatchEnv`): whatever the call of `m` did – returned, failed,
+hit the limit – a later call of `n` that returns a value returns the spec's, with no hypothesis
+about the limit in either call. -/
+theorem retry_unaffected_nocatch (hnc : NoCatchEnv env) (m n : Node) (s : St) (v : Val)
+    (hg : Good env inp s) (hv : (evalTop env n (evalTop env m s).2).1 = .ok v) :
+    Den env inp n (.ok v) :=
+  (failure_consistent_nocatch env inp hnc n _ (failure_consistent_nocatch env inp hnc m s hg).1).2.2 v hv
+
+theorem retry_unaffected_deep_propagates (hdp : DeepPropagatesEnv env) (m n : Node) (s : St) (v : Val)
+    (hg : Good env inp s) (hv : (evalTop env n (evalTop env m s).2).1 = .ok v) :
+    Den env inp n (.ok v) :=
+  (failure_consistent_deep_propagates env inp hdp n _
+    (failure_consistent_deep_propagates env inp hdp m s hg).1).2.2.1 v hv
+
+/-- **Sequences of successive failures and repairs**: after ANY history of the thirteen-operation
+edit language of C02 – top-level calls that return, fail with any error or are stopped by the
+limit, in any number and order, interleaved with the repairs (reference, formula, flag and value
+edits, cells created and deleted, limit changes) – every held value is the spec's under the CURRENT
+definitions and inputs, the executor is idle, and every later call that returns a value returns
+the spec's: the values of a model that never failed.  (Regime `C02.WF`: terminating, `NoCatch`,
+statically scoped; `Admissible`: the edits stay in the regime.  No hypothesis about the limit.) -/
+theorem successive_failures_consistent (lt : Node → Node → Prop) (ho : StrictOrder lt) (env0 : Env)
+    (hw0 : C02.WF env0 lt) (ops : List C02.Op) (hadm : C02.Admissible lt (env0, {}) ops) :
+    Good (C02.run (env0, {}) ops).1 (inpOf (C02.run (env0, {}) ops).2) (C02.run (env0, {}) ops).2 ∧
+    Quiet (C02.run (env0, {}) ops).2 ∧
+    ∀ n v, (evalTop (C02.run (env0, {}) ops).1 n (C02.run (env0, {}) ops).2).1 = .ok v →
+      Den (C02.run (env0, {}) ops).1 (inpOf (C02.run (env0, {}) ops).2) n (.ok v) :=
+  have h := C02.run_ci lt ho ops (env0, {}) hw0 (CI.empty env0 lt) hadm
+  ⟨h.1.good, h.1.quiet, fun n => (C01.eval_after_any_history_partial lt ho env0 hw0 ops hadm n).1⟩
 
 /-- **No element on the failing chain acquires a value**: in a correct state no element
 whose evaluation ends in an error holds a value – so after the failed call neither the
@@ -58,7 +121,7 @@ theorem failing_elements_hold_no_value (s : St) (hg : Good env inp s) (m : Node)
 /-- **Elements completed before the failure keep correct values**: an evaluation, failed or
 not, never removes a held value nor changes it, and leaves the user inputs alone. -/
 theorem held_values_kept_partial (n m : Node) (s : St) (v : Val)
-    (hg : Good env inp s) (h0 : s.hit = false) (hend : (evalTop env n s).2.hit = false)
+    (hg : Good env inp s) (hlim : LimitNotCaughtInThisCall env n s)
     (hc : env.cached m.1 = true) (hl : lookup s.data m = some v) :
     lookup (evalTop env n s).2.data m = some v ∧ (evalTop env n s).2.inputs = s.inputs := by
   have hk := evalTop_keeps env n s
@@ -67,16 +130,33 @@ theorem held_values_kept_partial (n m : Node) (s : St) (v : Val)
   cases hl' : lookup (evalTop env n s).2.data m with
   | none => rw [hl'] at hsome; cases hsome
   | some w =>
-    have hg' := (C01.eval_value_is_denotation_partial env inp n s hg h0 hend).2.2
+    have hg' := (C01.eval_value_is_denotation_partial env inp n s hg hlim).2.2
     have := Den_det env inp m _ _ (hg'.sound m w hc hl') (hg.sound m v hc hl)
     cases this; rfl
 
-/-- **Chains shorter than the configured limit never hit it**, whatever is cached. -/
+/-- …the same for ANY failure, the limit included, when formulas handle no failure. -/
+theorem held_values_kept_nocatch (hnc : NoCatchEnv env) (n m : Node) (s : St) (v : Val)
+    (hg : Good env inp s) (hc : env.cached m.1 = true) (hl : lookup s.data m = some v) :
+    lookup (evalTop env n s).2.data m = some v ∧ (evalTop env n s).2.inputs = s.inputs := by
+  have hk := evalTop_keeps env n s
+  refine ⟨?_, hk.2⟩
+  have hsome := hk.1 m (by rw [hl]; rfl)
+  cases hl' : lookup (evalTop env n s).2.data m with
+  | none => rw [hl'] at hsome; cases hsome
+  | some w =>
+    have hg' := (failure_consistent_nocatch env inp hnc n s hg).1
+    have := Den_det env inp m _ _ (hg'.sound m w hc hl') (hg.sound m v hc hl)
+    cases this; rfl
+
+/-- **Chains shorter than the configured limit never hit it**, whatever is cached and whatever
+earlier calls did: in particular the call does not fail with the depth error. -/
 theorem below_limit_no_deep (n : Node) (s : St) (r : Res)
-    (hg : Good env inp s) (h0 : s.hit = false)
+    (hg : Good env inp s)
     (hd : denoteN env inp (env.maxdepth + 1) n = (r, false)) :
-    (evalTop env n s).2.hit = false :=
-  (C01.eval_returns_denotation env inp n s r hg h0 hd).1
+    LimitNotCaughtInThisCall env n s ∧
+    (∀ v, r = .ok v → (evalTop env n s).1 = .ok v) ∧
+    (∀ e, r = .err e → ∃ tb, (evalTop env n s).1 = .formulaError e tb) :=
+  C01.eval_returns_denotation env inp n s r hg hd
 
 /-! ### Where `None` is "not allowed": the `allow_none` look-up chain
 
@@ -140,7 +220,16 @@ same limit*), `get_recursion`, `get_error`, `get_traceback`, `set_recursion` to 
 limit has – are the identity on the state and on the definitions.  So every theorem above,
 being stated for an arbitrary `env`, holds for the limit in force at each evaluation of a
 history that raises and lowers the limit between evaluations; what has to be shown is that the
-state such a history leaves is one the theorems apply to. -/
+state such a history leaves is one the theorems apply to.
+
+`Env.maxdepth = 0`: in the model and after `mx.set_recursion(0)` alike the limit 0 admits ONE frame
+(`CallStack.append` tests `len(self) > maxdepth`; `evalTop` gives `runN` the fuel `maxdepth + 1`).  But
+for that one value the administrative calls are NOT the identity in modelx: `start_stacktrace` /
+`stop_stacktrace` rebuild the call stack with `maxdepth=self.callstack.maxdepth`, and
+`CallStack.__init__` tests `if maxdepth:` – zero is falsy, the limit silently becomes the default
+(100000).  `admin_changes_nothing` is therefore a statement about limits ≥ 1 (all the harness
+configures); witness `notes/EXECP-repro_limit0_trace_session.py`, one-line candidate repair
+`notes/EXECP-candidate_limit0.diff` (`if maxdepth is not None:`). -/
 
 def withMaxdepth (env : Env) (k : Nat) : Env := { env with maxdepth := k }
 
@@ -218,51 +307,33 @@ theorem limit_is_last_configured (st : Env × St) (ops : List LOp) :
     | setLimit k => exact ih _
     | admin a => exact ih _
 
+/-- the ghost flag is never lowered (it is a ghost: `C01.limit_flag_is_ghost`) -/
 theorem evalTop_hit_sticky (n : Node) (s : St) (h : s.hit = true) : (evalTop env n s).2.hit = true := by
-  unfold evalTop
-  split
-  · exact h
-  · have hok := runN_ok env (fun _ => none) (env.maxdepth + 1) n s
-      (fun h0 => by rw [h] at h0; cases h0) (fun h0 => by rw [h] at h0; cases h0)
-    have := hok.1 h
-    generalize runN env (env.maxdepth + 1) n s = p at this
-    obtain ⟨r, s1⟩ := p
-    cases r <;> exact this
+  rw [evalTop_hit, h]; rfl
 
-theorem lstep_hit_sticky (st : Env × St) (op : LOp) (h : st.2.hit = true) : (lstep st op).2.hit = true := by
-  obtain ⟨env, s⟩ := st
-  cases op with
-  | eval n => exact evalTop_hit_sticky env n s h
-  | setLimit k => exact h
-  | admin a => exact h
-
-theorem lrun_hit_sticky (ops : List LOp) (st : Env × St) (h : st.2.hit = true) : (lrun st ops).2.hit = true := by
-  induction ops generalizing st with
-  | nil => exact h
-  | cons op rest ih => exact ih _ (lstep_hit_sticky st op h)
+/-- every evaluation of the history stays within the limit in force when it is made – in its own
+call; nothing links the calls -/
+def LimitFree : Env × St → List LOp → Prop
+  | _, [] => True
+  | st, op :: ops =>
+    (match op with
+      | .eval n => LimitNotCaughtInThisCall st.1 n st.2
+      | _ => True) ∧ LimitFree (lstep st op) ops
 
 /-- **A history that raises and lowers the limit between evaluations and makes administrative
-calls leaves a consistent, retryable state** (partial: `LimitNeverCaught` – the sticky flag is
-still down at the end, so no evaluation of the history handled a depth error): every held value
+calls leaves a consistent, retryable state** (partial: `LimitFree` – no evaluation of the history
+hits the limit in force at that moment, `LimitNotCaughtInThisCall` for each): every held value
 is the spec's under the limit now in force, and the executor is idle. -/
 theorem limit_history_consistent_partial (ops : List LOp) (st : Env × St)
-    (hg : Good st.1 inp st.2) (hq : Quiescent st.2) (h0 : st.2.hit = false)
-    (hend : (lrun st ops).2.hit = false) :
+    (hg : Good st.1 inp st.2) (hq : Quiescent st.2) (hfree : LimitFree st ops) :
     Good (lrun st ops).1 inp (lrun st ops).2 ∧ Quiescent (lrun st ops).2 := by
   induction ops generalizing st with
   | nil => exact ⟨hg, hq⟩
   | cons op rest ih =>
-    have hmid : (lstep st op).2.hit = false := by
-      cases h : (lstep st op).2.hit with
-      | false => rfl
-      | true =>
-        have := lrun_hit_sticky rest (lstep st op) h
-        simp only [lrun, List.foldl] at hend this
-        rw [this] at hend; cases hend
-    refine ih (lstep st op) ?_ ?_ hmid hend
+    refine ih (lstep st op) ?_ ?_ hfree.2
     · obtain ⟨env, s⟩ := st
       cases op with
-      | eval n => exact (C01.eval_value_is_denotation_partial env inp n s hg h0 hmid).2.2
+      | eval n => exact (C01.eval_value_is_denotation_partial env inp n s hg hfree.1).2.2
       | setLimit k => exact held_values_valid_under_any_limit env inp k s hg
       | admin a => exact hg
     · obtain ⟨env, s⟩ := st
@@ -271,22 +342,66 @@ theorem limit_history_consistent_partial (ops : List LOp) (st : Env × St)
       | setLimit k => exact hq
       | admin a => exact hq
 
+/-- **…with evaluations that DO exceed the limit, for formulas that do not catch the depth error**:
+generic form – `P` is a property of the definitions that limit changes keep and under which a
+top-level call keeps the state correct. -/
+theorem limit_history_consistent_of (P : Env → Prop) (hP : ∀ env k, P env → P (withMaxdepth env k))
+    (hstep : ∀ env n s, P env → Good env inp s → Good env inp (evalTop env n s).2) :
+    ∀ (ops : List LOp) (st : Env × St), P st.1 → Good st.1 inp st.2 → Quiescent st.2 →
+      Good (lrun st ops).1 inp (lrun st ops).2 ∧ Quiescent (lrun st ops).2 ∧ P (lrun st ops).1 := by
+  intro ops
+  induction ops with
+  | nil => intro st hp hg hq; exact ⟨hg, hq, hp⟩
+  | cons op rest ih =>
+    intro st hp hg hq
+    obtain ⟨env, s⟩ := st
+    cases op with
+    | eval n => exact ih (env, (evalTop env n s).2) hp (hstep env n s hp hg) (evalTop_quiescent env n s hq)
+    | setLimit k => exact ih (withMaxdepth env k, s) (hP env k hp) (held_values_valid_under_any_limit env inp k s hg) hq
+    | admin a => exact ih (env, s) hp hg hq
+
+/-- **Any history of evaluations – returned, failed, stopped by the limit in force –, limit changes
+and administrative calls leaves a consistent, retryable state when formulas let
+`DeepReferenceError` propagate** (no hypothesis about the limit). -/
+theorem limit_history_consistent_deep_propagates (ops : List LOp) (st : Env × St)
+    (hdp : DeepPropagatesEnv st.1) (hg : Good st.1 inp st.2) (hq : Quiescent st.2) :
+    Good (lrun st ops).1 inp (lrun st ops).2 ∧ Quiescent (lrun st ops).2 :=
+  have h := limit_history_consistent_of inp DeepPropagatesEnv (fun _ _ h => h)
+    (fun env n s hp hg => (failure_consistent_deep_propagates env inp hp n s hg).1) ops st hdp hg hq
+  ⟨h.1, h.2.1⟩
+
+/-- …**or handle no failure** (`NoCatchEnv`). -/
+theorem limit_history_consistent_nocatch (ops : List LOp) (st : Env × St)
+    (hnc : NoCatchEnv st.1) (hg : Good st.1 inp st.2) (hq : Quiescent st.2) :
+    Good (lrun st ops).1 inp (lrun st ops).2 ∧ Quiescent (lrun st ops).2 :=
+  have h := limit_history_consistent_of inp NoCatchEnv (fun _ _ h => h)
+    (fun env n s hp hg => (failure_consistent_nocatch env inp hp n s hg).1) ops st hnc hg hq
+  ⟨h.1, h.2.1⟩
+
 /-- …hence **after any such history a chain that stays within the limit configured last
 evaluates, and returns the spec's value** – whatever limits were in force before and whatever
 administrative calls were made. -/
 theorem within_last_limit_evaluates_partial (ops : List LOp) (st : Env × St)
-    (hg : Good st.1 inp st.2) (hq : Quiescent st.2) (h0 : st.2.hit = false)
-    (hend : (lrun st ops).2.hit = false) (n : Node) (r : Res)
+    (hg : Good st.1 inp st.2) (hq : Quiescent st.2) (hfree : LimitFree st ops) (n : Node) (r : Res)
     (hd : denoteN (lrun st ops).1 inp (lastLimit st.1.maxdepth ops + 1) n = (r, false)) :
-    (evalTop (lrun st ops).1 n (lrun st ops).2).2.hit = false ∧
+    LimitNotCaughtInThisCall (lrun st ops).1 n (lrun st ops).2 ∧
     (∀ v, r = .ok v → (evalTop (lrun st ops).1 n (lrun st ops).2).1 = .ok v) := by
-  obtain ⟨hg', _⟩ := limit_history_consistent_partial inp ops st hg hq h0 hend
+  obtain ⟨hg', _⟩ := limit_history_consistent_partial inp ops st hg hq hfree
   rw [← limit_is_last_configured] at hd
-  have := C01.eval_returns_denotation (lrun st ops).1 inp n (lrun st ops).2 r hg' hend hd
-  refine ⟨this.1, ?_⟩
-  intro v hv
-  subst hv
-  exact this.2.1 v rfl
+  have := C01.eval_returns_denotation (lrun st ops).1 inp n (lrun st ops).2 r hg' hd
+  exact ⟨this.1, this.2.1⟩
+
+/-- the same after a history in which evaluations DID exceed the limits in force (formulas let the
+depth error propagate): raising the limit afterwards is enough -/
+theorem within_last_limit_evaluates_deep_propagates (ops : List LOp) (st : Env × St)
+    (hdp : DeepPropagatesEnv st.1) (hg : Good st.1 inp st.2) (hq : Quiescent st.2) (n : Node) (r : Res)
+    (hd : denoteN (lrun st ops).1 inp (lastLimit st.1.maxdepth ops + 1) n = (r, false)) :
+    LimitNotCaughtInThisCall (lrun st ops).1 n (lrun st ops).2 ∧
+    (∀ v, r = .ok v → (evalTop (lrun st ops).1 n (lrun st ops).2).1 = .ok v) := by
+  obtain ⟨hg', _⟩ := limit_history_consistent_deep_propagates inp ops st hdp hg hq
+  rw [← limit_is_last_configured] at hd
+  have := C01.eval_returns_denotation (lrun st ops).1 inp n (lrun st ops).2 r hg' hd
+  exact ⟨this.1, this.2.1⟩
 
 /-! Non-vacuity: `chain(x) = chain(x-1) + 1`, limit 3, a stack-trace session, then `chain(5)`:
 `DeepReferenceError` as before the session; nothing held; after raising the limit it evaluates. -/
@@ -311,5 +426,53 @@ example : (evalTop (lrun (lEnv, {}) lOps).1 (0, [.int 5]) (lrun (lEnv, {}) lOps)
 example : (evalTop (lrun (lEnv, {}) lOps).1 (0, [.int 5]) (lrun (lEnv, {}) lOps).2).2.data = [] := by decide
 example : (evalTop (lrun (lEnv, {}) (lOps ++ [.eval (0, [.int 5]), .setLimit 9])).1 (0, [.int 5])
     (lrun (lEnv, {}) (lOps ++ [.eval (0, [.int 5]), .setLimit 9])).2).1 = .ok (.int 5) := by decide
+
+/-! The same program handles no failure, so the history in which `chain(5)` EXCEEDS the limit of 3 –
+the flag `hit` is up from then on – is covered by `limit_history_consistent_nocatch`: the state it
+leaves is correct, and (`within_last_limit_evaluates…`) after raising the limit `chain(5)` evaluates. -/
+theorem lEnv_nocatch : NoCatchEnv lEnv := by
+  intro n
+  show NoCatch (match lCells n.1 with
+    | some e => formulaOf (fun c => (lCells c).map (fun _ => 1)) e n.2
+    | none => .raise (.user kName))
+  cases h : lCells n.1 with
+  | none => trivial
+  | some e =>
+    refine (formulaOf_pw (fun _ => True) (fun _ => true) (fun _ _ => trivial) _ e n.2 ?_ ?_).1
+    · match n.1, h with
+      | 0, h => cases h; rfl
+    · match n.1, h with
+      | 0, h => cases h; rfl
+
+def lOps2 : List LOp := lOps ++ [.eval (0, [.int 5]), .setLimit 9]
+
+example : (lrun (lEnv, {}) lOps2).2.hit = true := by decide
+
+example : Good (lrun (lEnv, {}) lOps2).1 (fun _ => none) (lrun (lEnv, {}) lOps2).2 :=
+  (limit_history_consistent_nocatch (fun _ => none) lOps2 (lEnv, {}) lEnv_nocatch
+    ⟨by intro n v _ hl; simp at hl, by intro n v _ hi; cases hi⟩ ⟨rfl, rfl, rfl, rfl⟩).1
+
+/-! Successive failures and repairs in the edit language of C02 (program `C02.xEnv`): `c3()` is
+stopped by a limit of one frame, the limit is raised, `c3()` is 36; reference `r1` is deleted – `c3()`
+fails in `c1` –, then set again: `c3()` is 22.  The history is admissible; the theorem gives a
+correct idle state at its end and the spec's value for every later call. -/
+def sOps : List C02.Op :=
+  [.maxdepth 1, .eval (3, []), .maxdepth 50, .eval (3, []), .delRef 1, .eval (3, []), .setRef 1 (.int 1)]
+
+theorem sOps_admissible : C02.Admissible idLt (C02.xEnv, {}) sOps :=
+  C02.xOps_admissible sOps _ C02.xEnv_wf (by
+    intro op h; simp [sOps] at h; rcases h with rfl | rfl | rfl | rfl | rfl | rfl | rfl <;> trivial)
+
+example : (evalTop (C02.run (C02.xEnv, {}) (sOps.take 1)).1 (3, []) (C02.run (C02.xEnv, {}) (sOps.take 1)).2).1 =
+      .formulaError .deep [(3, []), (2, [.int 1])] ∧
+    (C02.run (C02.xEnv, {}) sOps).2.hit = true ∧
+    (evalTop (C02.run (C02.xEnv, {}) (sOps.take 5)).1 (3, []) (C02.run (C02.xEnv, {}) (sOps.take 5)).2).1 =
+      .formulaError (.user kAttr) [(3, []), (2, [.int 1]), (1, [.int 1])] ∧
+    (evalTop (C02.run (C02.xEnv, {}) sOps).1 (3, []) (C02.run (C02.xEnv, {}) sOps).2).1 = .ok (.int 22) := by
+  decide
+
+example : Good (C02.run (C02.xEnv, {}) sOps).1 (inpOf (C02.run (C02.xEnv, {}) sOps).2)
+    (C02.run (C02.xEnv, {}) sOps).2 :=
+  (successive_failures_consistent idLt idLt_strict C02.xEnv C02.xEnv_wf sOps sOps_admissible).1
 
 end MxModel.C05
